@@ -24,6 +24,8 @@ func solverPortfolio() []SolverSpec {
 		{Name: "z3-new-5.1.0", Cmd: []string{"z3-new"}},
 		{Name: "z3-4.8.12", Cmd: []string{"/usr/bin/z3"}},
 		{Name: "cvc5-1.0", Cmd: []string{"cvc5", "--incremental"}},
+		// the same z3 with its newer SAT/EUF core: decides some array-heavy queries in a fraction of the time
+		{Name: "z3-new-5.1.0-sat.euf", Cmd: []string{"z3-new", "tactic.default_tactic=smt", "sat.euf=true"}},
 	}
 }
 
@@ -314,7 +316,7 @@ func Discharge(results []*FnResult, opts DischargeOpts) (stats map[string]int, s
 			os.WriteFile(path, []byte(script), 0o644)
 			solvers := solverPortfolio()
 			if j.c.usesLambda {
-				solvers = solvers[:2] // cvc5 rejects lambda array terms
+				solvers = append(append([]SolverSpec{}, solvers[:2]...), solvers[3:]...) // cvc5 rejects lambda array terms
 			}
 			// stage 1: the usually-fastest solver alone (keeps the machine from being oversubscribed);
 			// stage 2: the full portfolio raced with the full timeout
@@ -326,7 +328,7 @@ func Discharge(results []*FnResult, opts DischargeOpts) (stats map[string]int, s
 			if stage1 < 4*time.Second {
 				stage1 = 4 * time.Second
 			}
-			r := Race(path, stage1, solvers[:1])
+			r := Race(path, stage1, []SolverSpec{solvers[0], solvers[len(solvers)-1]})
 			if r.Status != "sat" && r.Status != "unsat" {
 				r = Race(path, full, solvers)
 			}
